@@ -75,7 +75,7 @@ impl C01 {
 }
 
 impl HistMonitor for C01 {
-    fn after(&mut self, s: &mut Session, op: &Op, o: &Outcome, _ctx: &mut Ctx) -> Option<String> {
+    fn after(&mut self, s: &mut Session, op: &Op, o: &mut Outcome, _ctx: &mut Ctx) -> Option<String> {
         let before: BTreeSet<usize> = o.keys_before.iter().copied().collect();
         let after: BTreeSet<usize> = o.keys_after.iter().copied().collect();
         let removed: Vec<usize> = before.difference(&after).copied().collect();
@@ -199,7 +199,7 @@ fn judge_model_step(s: &Session, op: &Op, o: &Outcome) -> Option<String> {
 }
 
 impl HistMonitor for C02 {
-    fn after(&mut self, _s: &mut Session, _op: &Op, o: &Outcome, _ctx: &mut Ctx) -> Option<String> {
+    fn after(&mut self, _s: &mut Session, _op: &Op, o: &mut Outcome, _ctx: &mut Ctx) -> Option<String> {
         if !o.model_removed.is_empty() {
             self.collections += 1;
         }
@@ -342,7 +342,7 @@ fn show_edges(e: &[(sodg::Label, usize)]) -> String {
 }
 
 impl HistMonitor for C03 {
-    fn after(&mut self, s: &mut Session, op: &Op, o: &Outcome, ctx: &mut Ctx) -> Option<String> {
+    fn after(&mut self, s: &mut Session, op: &Op, o: &mut Outcome, ctx: &mut Ctx) -> Option<String> {
         // return values of reads
         match (&o.ret, &o.model_ret) {
             (Ret::Data(r), Some(Ret::Data(w))) => {
@@ -465,7 +465,7 @@ impl HistMonitor for C04 {
         }
     }
 
-    fn after(&mut self, s: &mut Session, op: &Op, o: &Outcome, ctx: &mut Ctx) -> Option<String> {
+    fn after(&mut self, s: &mut Session, op: &Op, o: &mut Outcome, ctx: &mut Ctx) -> Option<String> {
         // remember which ids carried edges or data when they were collected
         if let Op::Data(_) = op {
             for r in &o.model_removed {
@@ -623,7 +623,7 @@ pub struct C05 {
 }
 
 impl HistMonitor for C05 {
-    fn after(&mut self, s: &mut Session, op: &Op, o: &Outcome, _ctx: &mut Ctx) -> Option<String> {
+    fn after(&mut self, s: &mut Session, op: &Op, o: &mut Outcome, _ctx: &mut Ctx) -> Option<String> {
         let check = |ret: &mut BTreeSet<usize>, id: usize, what: &str| -> Option<String> {
             if id >= s.cap {
                 return Some(format!("{what} returned {id}, not below the capacity {}", s.cap));
